@@ -20,9 +20,12 @@ def tlc_replays(spec, cfg, tag, tier):
 # C09
 # ------------------------------------------------------------------------------------------------
 def autocommit_plans(tier):
-    """behaviours of AutoCommit.tla (2 threads) as coarse schedules"""
+    """behaviours of AutoCommit.tla (2 threads) as coarse schedules.  The generator runs the two *weaker* variants
+    (snapshot before lock; lock released before publication), whose behaviours are a superset of the code's, so that
+    the real code is pushed into both windows (where it must block or stay serialisable)."""
     r = model_run("AutoCommit", "Gen_AutoCommit", tier, "autocommit-gen", workers=1, timeout=600)
-    plans = r.get("replay") or []
+    r2 = model_run("AutoCommit", "Gen_AutoCommitEarlyRelease", tier, "autocommit-gen2", workers=1, timeout=600)
+    plans = (r.get("replay") or []) + (r2.get("replay") or [])
     if not plans:
         raise ToolError("Gen_AutoCommit produced no behaviours")
     uniq = []
@@ -42,8 +45,9 @@ def c09(tier, seed, replay):
     # the model with the order the code uses must hold; the other order must be caught (sensitivity)
     neg = model_run("AutoCommit", "MC_AutoCommitSnapshotFirst", tier, "autocommit-snapfirst", workers=2, timeout=600, must_hold=False)
     pos = model_run("AutoCommit", "MC_AutoCommitLockFirst", tier, "autocommit-lockfirst", workers=2, timeout=600)
-    if neg.get("violated") != "NoLostUpdate":
-        raise ToolError("AutoCommit sensitivity: snapshot-first must violate NoLostUpdate")
+    neg2 = model_run("AutoCommit", "MC_AutoCommitEarlyRelease", tier, "autocommit-early", workers=2, timeout=600, must_hold=False)
+    if neg.get("violated") != "NoLostUpdate" or neg2.get("violated") != "NoLostUpdate":
+        raise ToolError("AutoCommit sensitivity: snapshot-first and early lock release must violate NoLostUpdate")
     if replay:
         scenarios = [json.load(open(replay))["scenario"]]
     else:
@@ -89,7 +93,7 @@ def c09(tier, seed, replay):
     nv, nk = generic_verdict("C09", findings, lambda f: {"property": "C09", "finding": f,
                                                         "scenario": dict(by_id.get(f["id"], {}), plans=[f["plan"]])})
     cov = {"states": pos["states"], "transitions": pos["transitions"],
-           "model": {"lock_first_3_threads_holds": True, "snapshot_first_violates": neg.get("violated"),
+           "model": {"lock_first_3_threads_holds": True, "snapshot_first_violates": neg.get("violated"), "early_release_violates": neg2.get("violated"),
                      "order_observed_in_the_code": order, "behaviours_replayed": len(plans)},
            "traces_validated_against_impl": stats.get("schedules", 0), "evaluations": stats.get("schedules", 0),
            "distinct_nontrivial": len(plans) * len(scenarios),
@@ -130,6 +134,13 @@ def snap_scenarios(tier, seed):
         {"id": "long-lived/index-maintenance", "prefix": BASE + [{"op": "create_index", "label": "A", "key": "p"}], "long_lived": True,
          "writer": [{"op": "tx", "ops": [["SetNP", 0, "p", "i:2"]]}, {"op": "tx", "ops": [["CreateNode", "9", "A"], ["SetNP", 2, "p", "i:1"]]}]},
     ]
+    # a snapshot taken at a quiescent moment and read for the first time only after later operations
+    for i, w in enumerate([
+            [{"op": "tx", "ops": [["CreateNode", "7", "C"], ["CreateNode", "8", "A"], ["CreateEdge", 2, "R", 3], ["SetNP", 0, "p", "i:5"], ["AddLabel", 1, "C"]]}],
+            [{"op": "tx", "ops": [["CreateNode", "7", "C"], ["SetNP", 2, "p", "i:5"]]}, {"op": "compact"}],
+            [{"op": "tx", "ops": [["DelNode", 1]]}, {"op": "tx", "ops": [["CreateNode", "7", "C"]]}],
+            [{"op": "tx", "ops": [["DelEdge", 0, "R", 1], ["RemNP", 0, "p"]]}]]):
+        sc.append({"id": "late-first-read/%d" % i, "prefix": BASE, "late_read": True, "writer": w})
     n_rand = 2 if tier == "quick" else 25
     for i in range(n_rand):
         h = gen.gen_history(seed * 7919 + i, "rnd", "nocompact", n_ops=5, maxtx=4, aborts=False)
